@@ -163,7 +163,7 @@ def write_evidence(prop, tier, seed, units, wall_s, violations, known_hits, note
         "violations": violations,
     }
     os.makedirs(os.path.join(VERIF, "evidence"), exist_ok=True)
-    p = os.path.join(VERIF, "evidence", prop + ".json")
+    p = os.path.join(VERIF, "evidence", prop + os.environ.get("VERIF_EVIDENCE_SUFFIX", "") + ".json")
     with open(p + ".tmp", "w") as f:
         json.dump(ev, f, indent=1)
     os.replace(p + ".tmp", p)
